@@ -26,7 +26,9 @@ def same(a, b):
     if isbox(a):
         return False
     aa, bb = onp.asarray(a), onp.asarray(b)
-    return aa.shape == bb.shape and aa.dtype == bb.dtype and bool(onp.array_equal(aa, bb, equal_nan=True))
+    # (a NumPy scalar and a 0-d array are different kinds of value: hashable / immutable versus not)
+    return isinstance(a, onp.ndarray) == isinstance(b, onp.ndarray) and aa.shape == bb.shape and aa.dtype == bb.dtype \
+        and bool(onp.array_equal(aa, bb, equal_nan=True))
 
 
 def templates(rng):
@@ -94,6 +96,11 @@ def templates(rng):
           ("sum-method-positional-axis", lambda m, x: x.sum(0), a2),
           ("clip-method-keywords", lambda m, x: x.clip(min=-1.0, max=2.0), a2, True),
           ("astype-method", lambda m, x: x.astype(float), a2),
+          ("astype of an entry (a NumPy scalar)", lambda m, x: x[0, 0].astype(onp.float32), a2),
+          ("astype(float) of an entry", lambda m, x: x[-1, -1].astype(float) * 2.0, a2),
+          ("sum then astype(float32)", lambda m, x: m.sum(x).astype(onp.float32), a2),
+          ("entry arithmetic stays a scalar", lambda m, x: x[0, 0] * 2.0 + x[-1, -1], a2),
+          ("0-d slice stays an array", lambda m, x: x[0, 0, ...] * 2.0, a2),
           ("ravel", lambda m, x: m.ravel(x), a2),
           ("transpose-T", lambda m, x: x.T, a2),
           ("sum-axis", lambda m, x: m.sum(x, axis=-1, keepdims=True), a2),
